@@ -8,4 +8,4 @@ Extraction "../ocaml/c06/model.ml" new_session decide decide_history safe_errorb
   is_retry is_same_target carried prop_decision_ok prop_history_ok same_target_budget fiber
   attempts conn_fails attempt_cls prop_trace_ok
   e2e_check check_single check_multi fiber_check prop_frames overlap_ok mkFrame mkCert
-  prop_trace_full followed_ok follow check_timeout.
+  prop_trace_full followed_ok follow check_timeout prop_timeout_frames.
